@@ -45,6 +45,12 @@ def mkArgs (r0 z0 : Float) (a : Array Float) : Args :=
 def step (ts : List String) : String :=
   match ts with
   | ["pi"] => fF piF
+  -- one node of a derivative grid: kind (0 first, 1 interior, 2 last), three psi values, three axis values
+  -- (interior: the middle value is not used)
+  | ["dnode", k, f0, f1, f2, r0, r1, r2] =>
+      let g (a b c : Float) : Float :=
+        if pN k == 0 then gradFirst a b c else if pN k == 1 then gradInterior a c else gradLast a b c
+      fF (dpsiNode (g (pF f0) (pF f1) (pF f2)) (g (pF r0) (pF r1) (pF r2)))
   -- "rows ndim nrows ncols v..." (row-major): which two rows the code hands to the interpolator, or E (IndexError)
   | "rows" :: ndim :: nrows :: ncols :: vals =>
       let nc := pN ncols
